@@ -104,6 +104,12 @@ pub struct Faults3 {
     pub drop: u64,
     pub dup: u64,
     pub delay: u64,
+    /// per-mille of datagrams for the node under test that are tampered with on the way
+    /// (a bit flipped, truncated, extended)
+    pub corrupt: u64,
+    /// per-mille of datagrams for the node under test that are recorded and injected again
+    /// later, from the same or from another node's address
+    pub replay: u64,
 }
 
 /// What a datagram for the node under test is, as its sender knows it.
@@ -383,7 +389,33 @@ impl World {
             } else {
                 Duration::ZERO
             };
-            self.flights.push(Flight { due: now + delay, to_victim, node, addr, bytes: bytes.clone(), tag: tag.clone() });
+            let mut bytes = bytes.clone();
+            let mut tag = tag.clone();
+            if to_victim && self.rng.below(1000) < f.corrupt && !bytes.is_empty() {
+                match self.rng.below(3) {
+                    0 => {
+                        let k = self.rng.usize(bytes.len());
+                        bytes[k] ^= 1 << self.rng.below(8);
+                    }
+                    1 => {
+                        let keep = self.rng.usize(bytes.len());
+                        bytes.truncate(keep);
+                    }
+                    _ => {
+                        let extra = 1 + self.rng.usize(8);
+                        let more = self.rng.bytes(extra);
+                        bytes.extend(more);
+                    }
+                }
+                tag = Tag { via: "corrupted", msg: None, label: format!("corrupted ({})", tag.label), gen: None };
+            }
+            if to_victim && self.rng.below(1000) < f.replay {
+                let later = now + delay + Duration::from_millis(5 + self.rng.below(4000));
+                let from = if self.rng.bool() || self.nodes.len() < 2 { addr } else { let j = self.rng.usize(self.nodes.len()); self.nodes[j].sim.addr() };
+                let via: &'static str = if tag.via == "handshake" { "replayed-handshake" } else { "replayed" };
+                self.flights.push(Flight { due: later, to_victim, node, addr: from, bytes: bytes.clone(), tag: Tag { via, msg: None, label: format!("{via} ({}) from {from}", tag.label), gen: None } });
+            }
+            self.flights.push(Flight { due: now + delay, to_victim, node, addr, bytes, tag });
         }
     }
 
